@@ -647,10 +647,14 @@ def compare(case, impl, model):
                     ds.append(f"P-spline[{e}] curve {i}: non-finite coefficients")
                     break
                 beta = [Fraction(float(x)) for x in ft["beta"]]
+                rows_ = [[(Aq[k][l] + lam * int(P[k][l])) * beta[l] for l in range(K)] for k in range(K)]
+                # rows whose terms are all at rounding level (a basis function without support on the samples and a
+                # vanishing penalty term) are judged against the size of the whole system
+                tot = max(sum(abs(x) for x in r_) + abs(bq[k]) for k, r_ in enumerate(rows_))
                 for k in range(K):
-                    terms = [(Aq[k][l] + lam * int(P[k][l])) * beta[l] for l in range(K)]
+                    terms = rows_[k]
                     res = sum(terms) - bq[k]
-                    sc = sum(abs(x) for x in terms) + abs(bq[k]) + Fraction(1, 10**200)
+                    sc = sum(abs(x) for x in terms) + abs(bq[k]) + Fraction(1, 10**5) * tot + Fraction(1, 10**200)
                     if abs(res) > Fraction(1, 10**7) * sc:
                         ds.append(f"P-spline[{e}] curve {i}: coefficients do not solve the model's normal equations (row {k}: residual {float(res):.3g}, scale {float(sc):.3g})")
                         break
